@@ -882,6 +882,9 @@ impl<'a> Gen<'a> {
             .visible()
             .into_iter()
             .filter(|v| matches!(v.ty, Ty::Int | Ty::Str | Ty::Bool) && v.assignable)
+            // no string assignment inside loops: `s = (s .. a) .. (s .. b)` doubles the string on every
+            // iteration and nested loops make the reference run need exponential memory
+            .filter(|v| v.ty != Ty::Str || self.in_loop.iter().all(|l| *l == LoopKind::None))
             .collect();
         if candidates.is_empty() {
             self.local_decl();
